@@ -120,3 +120,34 @@ Definition chk_cap_response (c : cstate) (sw : switch) : bool :=
   end.
 Lemma chk_cap_response_holds c sw : chk_cap_response c sw = true.
 Proof. all_cs c; destruct sw; vm_compute; reflexivity. Qed.
+
+(* ---- once keep-alive is off: [blockedG c]: no new cycle can start (capG) and the two sides are not both IDLE, so no
+   Request can be accepted either.  It holds after every Response that switches keep-alive off and after every accepted
+   Request, and survives everything else. *)
+Definition blockedG (c : cstate) : bool := capG c && negb (is_idle (cs_client c) && is_idle (cs_server c)).
+Definition chk_blk_event (c : cstate) (role : bool) (k : evkind) (sw : switch) : bool :=
+  match process_event c role k sw with
+  | Some c' => impb (blockedG c) (if negb role && is_response k then blockedG (keep_alive_disabled c') else blockedG c')
+  | None => true
+  end.
+Lemma chk_blk_event_holds c role k sw : chk_blk_event c role k sw = true.
+Proof. all_cs c; destruct role, k, sw; vm_compute; reflexivity. Qed.
+Definition chk_blk_misc (c : cstate) (b1 b2 : bool) : bool :=
+  impb (blockedG c) (blockedG (process_error c b1) && blockedG (propose c b1 b2) && blockedG (keep_alive_disabled c))
+  && Bool.eqb (cs_keep_alive (process_error c b1)) (cs_keep_alive c).
+Lemma chk_blk_misc_holds c b1 b2 : chk_blk_misc c b1 b2 = true.
+Proof. all_cs c; destruct b1, b2; vm_compute; reflexivity. Qed.
+(* a Response can only be sent from IDLE / SEND_RESPONSE; with keep-alive switched off afterwards the state is blocked *)
+Definition chk_resp_blk (c : cstate) (sw : switch) : bool :=
+  match process_event c false KResponse sw with Some c' => blockedG (keep_alive_disabled c') | None => true end.
+Lemma chk_resp_blk_holds c sw : chk_resp_blk c sw = true.
+Proof. all_cs c; destruct sw; vm_compute; reflexivity. Qed.
+(* an accepted Request comes from IDLE / IDLE and leaves a blocked state if it switches keep-alive off *)
+Definition chk_req_blk (c : cstate) (up conn kal : bool) : bool :=
+  match request_cs c up conn kal with
+  | Some c' => is_idle (cs_client c) && is_idle (cs_server c) && impb (negb (cs_keep_alive c')) (blockedG c')
+               && impb (cs_keep_alive c') (cs_keep_alive c)
+  | None => true
+  end.
+Lemma chk_req_blk_holds c up conn kal : chk_req_blk c up conn kal = true.
+Proof. all_cs c; destruct up, conn, kal; vm_compute; reflexivity. Qed.
